@@ -4,6 +4,7 @@ CHECK = {
                     "C01.gen_structure", "C01.gen_publish", "C02.c02_reassembly", "C02.c02_prefix_always", "C02.gen_structure",
                     "E2E.c01_end_to_end", "E2E.c01_end_to_end_prefix", "E2E.wire_sim", "E2E.isEnc_exists", "C04.c04_roundtrip",
                     "E2E.c01_end_to_end_bytes", "E2E.c01_end_to_end_bytes_prefix", "E2E.conn_handed", "E2E.labelled", "C05.c05_roundtrip", "C05.gen_structure",
+                    "C15.gen_structure", "C15.c15_same_session",
                     "C01D.gen_deadline_sp", "C01D.gen_timed_out", "C01D.c01_deadline_prefix", "C01D.sp_no_deadline_is_plain", "C01D.sp_timeout_keeps", "C01D.sp_timeout_sound", "C01D.sp_timeout_complete", "C01D.c01_returns_by_deadline"],
     "lean_module": "CloakModel.Props.C01All",
     "scenarios": ["C01", "C01dl"],
@@ -14,6 +15,6 @@ CHECK = {
             "compared with the Lean session+reorder model; TLS rig: common.TLSConn over a byte stream cut at arbitrary positions (1 byte, inside headers, "
             "coalesced records), monitors only; addConn-vs-send schedule via VerifPoint. all cases non-trivial; distinct by configuration tag",
     "assumptions": ["goroutine scheduling inside deplex/Copy, sync.Map, sync.Pool buffer reuse: exercised by the correspondence runs only",
-                    "the ciphers (C04) and record framing (C05) lemmas are proved in their own properties; C01's theorems are about the receive/chunking composition"],
+                    "all connections of one session carry the session's key: C15.c15_same_session + C15.gen_structure (GetSession's one critical section) are obligations here too (round-6 seed C01-7); concrete inputs for that come from C15's waves", "the ciphers (C04) and record framing (C05) lemmas are proved in their own properties; C01's theorems are about the receive/chunking composition"],
     "timeout": {"quick": 600, "thorough": 3600},
 }
